@@ -95,7 +95,11 @@ def handle (op : String) (ins outs : List J) : Verdict :=
         verdictOf ((if g.size ≥ 3 then "nt " else "tr ") ++ sizeTag g.size ++ s!" bigcomps={min ncyc 3}")
           [("sccSpec-holds", specOk, "spec partition fails its own checker"),
            ("scc-" ++ res.getD "", res.isNone, s!"clause {res.getD ""} comps {toString comps}"),
-           ("scc-partition-eq-spec", samePartition, s!"go {toString comps} spec {toString spec}")]
+           ("scc-partition-eq-spec", samePartition, s!"go {toString comps} spec {toString spec}"),
+           ("scc-mirror",
+              (let (mc, mco, mo) := tarjan g
+               comps == mc && (match compOf with | some c => c == mco | none => true) && (match outs' with | some o => o == mo | none => true)),
+              s!"go {toString comps} mirror {toString (tarjan g).1}")]
       | _, _ => .badOp "scc: parse opt"
     | _, _, _, _ => .badOp "scc: parse"
   | "simp", [gJ, wJ], [outJ] =>
@@ -173,7 +177,8 @@ def handle (op : String) (ins outs : List J) : Verdict :=
       let unreach := (List.range g.size).any fun v => !c.rs.getD v false
       verdictOf ((if g.size ≥ 3 then "nt " else "tr ") ++ sizeTag g.size ++ (if unreach then " unreach" else " allreach"))
         [("idom-spec-defined", !m.contains (-2), "idomSpec found no immediate dominator (theorem violated?)"),
-         ("idom", go == m, s!"go {intsStr go} spec {intsStr m}")]
+         ("idom", go == m, s!"go {intsStr go} spec {intsStr m}"),
+         ("idom-mirror", idomCHK g r == m, s!"CHK mirror {intsStr (idomCHK g r)} spec {intsStr m}")]
     | _, _, _ => .badOp "idom: parse"
   | "dom", [idomJ], [numJ, childrenJ, inJ, idomOutJ] =>
     match idomJ.ints?, numJ.nat?, childrenJ.natss?, inJ.intss?, idomOutJ.ints? with
@@ -195,6 +200,7 @@ def handle (op : String) (ins outs : List J) : Verdict :=
       let nonempty := m.any (!·.isEmpty)
       verdictOf ((if nonempty then "nt " else "tr ") ++ sizeTag g.size ++ (if skipRoot then " rootproviso" else ""))
         [("domfrontier", ok, s!"go {toString go} spec {toString m}"),
+         ("domfrontier-mirror", domFrontierCHK g r (idomSpec g r) == go, s!"go {toString go} mirror {toString (domFrontierCHK g r (idomSpec g r))}"),
          ("domfrontier-dupfree", dupFree, s!"go {toString go}")]
     | _, _, _ => .badOp "df: parse"
   | _, _, _ => .badOp s!"graph op {op} arity"
